@@ -56,10 +56,11 @@ def run(repo: Repo, R: Report) -> None:
     mod = repo.module(CLI)
     fn = repo.func(CLI, "_run")
     R.assume(
-        "constructing Pipeline(...) and the trace driver executes no node and opens no file (files are opened by on_pipeline_start / emit_start)",
+        "constructing Pipeline(...) and the trace driver executes no node (that they create / open no file is decided by C17-D1-preflight-writes-nothing over the resolvable call graph)",
+        "calls before the gates whose target is not statically known (classes taken from the execution-component registry: transport_cls(), executor_cls(), orchestrator factories of plug-ins) and file writes that are not visible as such in the call (third-party savers) do not write files",
         "print/logger calls do not raise",
     )
-    R.undecided("that sinks/trace files are really untouched (nothing is run); accuracy of inspection itself beyond the order-sensitivity rule")
+    R.undecided("that sinks/trace files are really untouched (nothing is run); accuracy of inspection itself beyond the order-sensitivity rule and the coverage of the data-type test; open(...) with a non-literal mode")
 
     def may_raise(part: ast.AST) -> Set[str]:
         for n in walk_no_nested(part):
@@ -93,11 +94,7 @@ def run(repo: Repo, R: Report) -> None:
             if isinstance(st, ast.Assign) and isinstance(st.targets[0], ast.Subscript) and isinstance(st.targets[0].value, ast.Name):
                 CTX = st.targets[0].value.id
     # missing-key list: the `if X:` whose body lists missing keys; X = sorted(required.difference(supplied.keys()))
-    MISSING = None
-    for cand in [n for n in walk_no_nested(fn) if isinstance(n, ast.Assign) and isinstance(n.targets[0], ast.Name)]:
-        if any(isinstance(c, ast.Call) and call_attr(c) == "difference" for c in ast.walk(cand.value)) or (any(isinstance(b, ast.BinOp) and isinstance(b.op, ast.Sub) for b in ast.walk(cand.value)) and "required" in ast.unparse(cand.value)):
-            if any(isinstance(i, ast.If) and dotted_name(i.test) == cand.targets[0].id for i in walk_no_nested(fn)):
-                MISSING = cand.targets[0].id
+    MISSING = _missing_role(fn, fn) or _missing_role(_run_normal_form(repo, fn), fn)
     EXITVAR = None
     for r in [n for n in walk_no_nested(fn) if isinstance(n, ast.Return) and isinstance(n.value, ast.Name)]:
         if r.value.id not in DOCUMENTED_CODES:
@@ -166,22 +163,9 @@ def run(repo: Repo, R: Report) -> None:
     preflight_effects_rule(repo, R, mod, fn, g, gate_nodes, flag_tests, flag_atom)
 
     # missing is computed from inspection.required_context_keys minus supplied keys
-    r_miss = R.rule("C17-D1-missing-key-set", "missing = inspection.required_context_keys minus keys supplied by --context and the run space (def-use)", 2)
-    mv = assigned_value(fn, MISSING)
-    ok = False
-    if len(mv) == 1:
-        names = {x.id for x in ast.walk(mv[0]) if isinstance(x, ast.Name)}
-        diff = [c for c in ast.walk(mv[0]) if isinstance(c, ast.Call) and call_attr(c) == "difference"] or [b for b in ast.walk(mv[0]) if isinstance(b, ast.BinOp) and isinstance(b.op, ast.Sub)]
-        if diff:
-            d = diff[0]
-            left = d.func.value if isinstance(d, ast.Call) else d.left
-            right = d.args[0] if isinstance(d, ast.Call) else d.right
-            lroot = {x.id for x in ast.walk(left) if isinstance(x, ast.Name)}
-            rroot = {x.id for x in ast.walk(right) if isinstance(x, ast.Name)}
-            req_defs = [v for nm in lroot for v in assigned_value(fn, nm)]
-            sup_defs = [v for nm in rroot for v in assigned_value(fn, nm)]
-            ok = any("required_context_keys" in ast.unparse(v) and INSP in {x.id for x in ast.walk(v) if isinstance(x, ast.Name)} for v in req_defs) and any(CTX in {x.id for x in ast.walk(v) if isinstance(x, ast.Name)} for v in sup_defs)
-    R.check(ok, r_miss, CLI, "_run", "missing = required_external - supplied", "the missing-key gate is not (inspection's required keys) minus (supplied keys)", fn.lineno)
+    r_miss = R.rule("C17-D1-missing-key-set", "missing = inspection.required_context_keys minus the keys supplied by --context and the run space: the supplied side is the untransformed key set of a mapping that holds exactly the --context keys plus the keys of a planned run (what the first run receives as its context)", 4)
+    for ok, stmt, what, line in missing_key_gate(repo, fn, MISSING, INSP, CTX):
+        R.check(ok, r_miss, CLI, "_run", stmt, what, line or fn.lineno)
     insp = assigned_value(fn, INSP)
     ok = any(isinstance(v, ast.Call) and call_attr(v) == "build_pipeline_inspection" and v.args and PCFG in ast.unparse(v.args[0]) for v in insp)
     R.check(ok, r_miss, CLI, "_run", "inspection = build_pipeline_inspection(pipeline_cfg.nodes)", "the inspected nodes are not the parsed configuration's nodes", fn.lineno)
@@ -439,7 +423,7 @@ def preflight_effects_rule(repo: Repo, R: Report, mod, fn: ast.AST, g: CFG, gate
                 roots.append((m, node))
         if keys:
             resolved_calls.append((c, keys))
-    clo = repo.call_graph_closure(roots)
+    clo = _closure(repo, roots)
     dirty_roots: Set[str] = set()
     reported: Set[Tuple[str, int, int]] = set()
     for _id, (m, node, path) in clo.items():
@@ -485,6 +469,8 @@ def _implies_legit(test: ast.AST, polarity: bool, legit: Set[str]) -> bool:
             if isinstance(op, (ast.IsNot, ast.NotEq)):
                 return polarity is False
         return False
+    if isinstance(test, ast.Call):
+        return polarity is True and ast.unparse(test) in legit  # the compatibility test itself holds
     if ast.unparse(test) in legit:  # bare truthiness of an object-or-None / class-or-None
         return polarity is False
     return False
@@ -498,7 +484,7 @@ def validation_gate_rule(repo: Repo, R: Report) -> None:
     from ..normal import nfunc
     from ..pat import find
 
-    r = R.rule("C17-D4-validation-covers-typed-nodes", "in the data-flow validation loop every node reaches the compatibility test unless its input type is None or there is no typed predecessor (no other way round the test), and an incompatible pair reaches the statement that records a node error", 2)
+    r = R.rule("C17-D4-validation-covers-typed-nodes", "in the data-flow validation loop every node reaches the compatibility test unless its input type is None or there is no typed predecessor (no other way round the test), and an incompatible pair reaches the statement that records a node error; validate_pipeline runs that validation before it collects and raises the recorded errors", 2)
     fname = "_validate_data_flow_compatibility"
     vf = nfunc(repo, VALIDATOR, fname, keep=("_is_compatible",), consts=False)
     hits = [(n, e) for n, e in find(vf, "_is_compatible(_P_.output_type, _N_.input_type)", nested=False)]
@@ -516,38 +502,291 @@ def validation_gate_rule(repo: Repo, R: Report) -> None:
     if len(head) != 1 or len(cn) != 1:
         raise AnalysisError(f"{fname}: loop / test not found in the control-flow graph")
     head, cn = head[0], cn[0]
-    legit = {P, f"{N}.input_type"}
-    legit_edges: Set[Tuple[int, str]] = set()
+    legit = {P, f"{N}.input_type", ast.unparse(comp)}
+    recorders = {n.id for n in g.nodes if n.part is not None and any(call_attr(c) in ("append", "extend", "add", "insert") and isinstance(c.func, ast.Attribute) and (_root_name(c.func.value) == N or "errors" in ast.unparse(c.func)) for c in calls_in(n.part))}
+    recorders |= {n.id for n in g.nodes if n.kind == "stmt" and isinstance(n.ast, ast.Raise)}
+    if not recorders:
+        raise AnalysisError(f"{fname}: no statement records an error of the node")
+    # an edge is fine when taking it implies: no typed predecessor, or no input type, or the pair is compatible
+    fine_edges: Set[Tuple[int, str]] = set()
+    tests = {}
     for n in g.nodes:
         if n.kind in ("if", "while") and n.part is not None:
+            t = tests[n.id] = _named_test(g, n, {_root_name(env["_P_"]), _root_name(env["_N_"])})
             for lab, pol in (("T", True), ("F", False)):
-                if _implies_legit(n.part, pol, legit):
-                    legit_edges.add((n.id, lab))
+                if _implies_legit(t, pol, legit):
+                    fine_edges.add((n.id, lab))
     body_entry = [t for t, lab in g.succ[head] if lab == "T"]
-    seen = g.reach(body_entry, blocked={cn}, blocked_edges=legit_edges)
+    seen = g.reach(body_entry, blocked=recorders, blocked_edges=fine_edges)
     leaves = [x for x in (head, g.ret_exit) if x in seen]
     path = g.path_to(seen, leaves[0]) if leaves else None
-    skip = ""
-    if path:
-        # name the test whose edge lets a typed node round the compatibility test
-        tests = [g.nodes[i] for i in seen if g.nodes[i].kind == "if" and g.nodes[i].part is not None and not all((i, lab) in legit_edges for lab in ("T", "F"))]
-        cand = [t for t in tests if any(ast.unparse(x) in legit for x in ast.walk(t.part))] or tests
-        skip = f" (see `if {norm(cand[0].part)[:80]}`)" if cand else ""
-    R.check(not leaves, r, VALIDATOR, fname, f"every node with an input type and a typed predecessor reaches {norm(comp)[:70]}",
-            f"a node that declares an input type and has a typed predecessor can go round the compatibility test{skip}: validation accepts a pipeline whose node raises TypeError at run time, after earlier nodes (sinks, trace) already ran",
-            (cand[0].line if path and cand else loop.lineno), path)
-    # an incompatible pair is recorded as an error of the node
-    def is_compat(e: ast.AST) -> Optional[bool]:
-        return True if e is comp else None
+    what, line = "", loop.lineno
+    if leaves:
+        # name the branch that lets the iteration end without a verdict
+        on_path, cur = [], leaves[0]
+        while cur is not None:
+            on_path.append(cur)
+            prev = seen.get(cur)
+            cur = prev[0] if prev else None
+        guilty = [g.nodes[i] for i in reversed(on_path) if i in tests and not all((i, lab) in fine_edges for lab in ("T", "F"))]
+        comp_text = ast.unparse(comp)
+        tested = any(comp_text in ast.unparse(tests[i]) for i in on_path if i in tests)
+        gtxt = f" (`if {norm(tests[guilty[-1].id])[:90]}`)" if guilty else ""
+        line = guilty[-1].line if guilty else loop.lineno
+        if tested:
+            what = f"an incompatible (predecessor output, node input) pair can end the iteration without a recorded error{gtxt}: validate_pipeline does not reject the configuration, the CLI runs it and the node raises TypeError after earlier nodes (sinks, trace) already ran"
+        else:
+            what = f"a node that declares an input type and has a typed predecessor can go round the compatibility test{gtxt}: validation accepts a pipeline whose node raises TypeError at run time, after earlier nodes (sinks, trace) already ran"
+    R.check(not leaves, r, VALIDATOR, fname, f"each node: no typed predecessor | no input type | {norm(comp)[:60]} | error recorded", what, line, path)
+    # ... and validate_pipeline runs the data-flow validation before it decides, and raises on recorded errors
+    vp = nfunc(repo, VALIDATOR, "validate_pipeline", keep=(fname,), consts=False)
+    gv = CFG(vp, may_raise=lambda part: set())
+    flow_calls = [n for n in gv.nodes if n.part is not None and any((call_attr(c) or call_name(c)) == fname for c in calls_in(n.part))]
+    raises = [n for n in gv.nodes if n.kind == "stmt" and isinstance(n.ast, ast.Raise)]
+    reads = [n for n in gv.nodes if n.part is not None and any(isinstance(x, ast.Attribute) and x.attr == "errors" for x in ast.walk(n.part)) and n not in flow_calls]
+    ok = bool(flow_calls) and bool(raises) and bool(reads) and all(gv.dominated_by_node(x.id, flow_calls[0].id) for x in raises + reads)
+    R.check(ok, r, VALIDATOR, "validate_pipeline", f"{fname}(...) runs before the errors are collected and raised",
+            "validate_pipeline does not run the data-flow validation before it collects the recorded errors (or never raises): an incompatible pipeline passes the validation gate", vp.lineno)
 
-    if g.nodes[cn].kind == "if":
-        bad_labels = {"T", "F"} - edges_guaranteeing(g.nodes[cn].part, is_compat) if edges_guaranteeing(g.nodes[cn].part, is_compat) else {"T", "F"}
-        starts = [t for t, lab in g.succ[cn] if lab in bad_labels]
-        recorders = {n.id for n in g.nodes if n.part is not None and any(call_attr(c) in ("append", "extend", "add") and "errors" in ast.unparse(c.func) for c in calls_in(n.part))}
-        raisers = {n.id for n in g.nodes if n.kind == "stmt" and isinstance(n.ast, ast.Raise)}
-        seen2 = g.reach(starts, blocked=recorders | raisers)
-        escaped = [x for x in (head, g.ret_exit) if x in seen2]
-        R.check(bool(recorders | raisers) and not escaped, r, VALIDATOR, fname, "incompatible pair -> node error recorded",
-                "an incompatible (predecessor output, node input) pair does not always end in a recorded error: validate_pipeline does not reject the configuration", comp.lineno, g.path_to(seen2, escaped[0]) if escaped else None)
-    else:
-        R.violation(r, VALIDATOR, fname, norm(comp_stmt)[:100], "the result of the compatibility test does not guard the recording of an error", comp.lineno)
+
+# ---------------------------------------------------------------------------------------------
+# D1: the missing-key gate compares the right two sets
+# ---------------------------------------------------------------------------------------------
+_KEY_PRESERVING_CTORS = {"set", "frozenset", "list", "tuple", "sorted", "dict", "iter", "OrderedDict"}
+
+
+def _key_roots(e: Optional[ast.AST]) -> Optional[List[ast.AST]]:
+    """The mapping expressions whose *unchanged* key sets make up the value of *e* (a key view, a copy, a
+    union of such); None when keys are computed / transformed on the way."""
+    if e is None:
+        return None
+    if isinstance(e, (ast.Name, ast.Subscript, ast.Attribute)):
+        return [e]
+    if isinstance(e, ast.Call):
+        f = e.func
+        if isinstance(f, ast.Attribute) and f.attr in ("keys", "copy") and not e.args and not e.keywords:
+            return _key_roots(f.value)
+        if isinstance(f, ast.Attribute) and f.attr == "union" and not e.keywords:
+            parts = [_key_roots(f.value)] + [_key_roots(a) for a in e.args]
+            return None if any(p is None for p in parts) else [x for p in parts for x in p]
+        if isinstance(f, ast.Name) and f.id in _KEY_PRESERVING_CTORS and not e.keywords:
+            if not e.args:
+                return []
+            return _key_roots(e.args[0]) if len(e.args) == 1 else None
+        return None
+    if isinstance(e, ast.BinOp) and isinstance(e.op, ast.BitOr):
+        l, r = _key_roots(e.left), _key_roots(e.right)
+        return None if l is None or r is None else l + r
+    if isinstance(e, (ast.SetComp, ast.ListComp, ast.GeneratorExp)):
+        if len(e.generators) == 1 and not e.generators[0].ifs and isinstance(e.elt, ast.Name) and isinstance(e.generators[0].target, ast.Name) and e.elt.id == e.generators[0].target.id:
+            return _key_roots(e.generators[0].iter)
+        return None
+    if isinstance(e, ast.Dict):
+        if all(k is None for k in e.keys):
+            parts = [_key_roots(v) for v in e.values]
+            return None if any(p is None for p in parts) else [x for p in parts for x in p]
+        return None
+    if isinstance(e, (ast.Set, ast.List, ast.Tuple)) and not e.elts:
+        return []
+    if isinstance(e, ast.IfExp):
+        l, r = _key_roots(e.body), _key_roots(e.orelse)
+        return None if l is None or r is None else l + r
+    return None
+
+
+def missing_key_gate(repo: Repo, fn: ast.AST, MISSING: str, INSP: str, CTX: str) -> List[Tuple[bool, str, str, int]]:
+    """Obligations on `missing = <required> - <supplied>` (analysed on the normal form, so naming the
+    supplied set or the key view does not matter)."""
+    from ..engine import mutation_sites
+    from ..normal import nfunc
+    from ..pat import find1, name_of
+
+    out: List[Tuple[bool, str, str, int]] = []
+    nf = _run_normal_form(repo, fn)
+    src = nf if len(assigned_value(nf, MISSING)) == 1 else fn
+    mv = assigned_value(src, MISSING)
+    diff = None
+    if len(mv) == 1:
+        diffs = [c for c in ast.walk(mv[0]) if isinstance(c, ast.Call) and call_attr(c) == "difference" and len(c.args) == 1] or [b for b in ast.walk(mv[0]) if isinstance(b, ast.BinOp) and isinstance(b.op, ast.Sub)]
+        diff = diffs[0] if diffs else None
+    if diff is None:
+        return [(False, "missing = required_external - supplied", "the missing-key gate is not (inspection's required keys) minus (supplied keys)", 0)]
+    left = diff.func.value if isinstance(diff, ast.Call) else diff.left
+    right = diff.args[0] if isinstance(diff, ast.Call) else diff.right
+    line = getattr(diff, "lineno", 0)
+    # -- required side: comes from inspection.required_context_keys
+    def from_inspection(e: ast.AST, depth: int = 0) -> bool:
+        if "required_context_keys" in ast.unparse(e) and INSP in {x.id for x in ast.walk(e) if isinstance(x, ast.Name)}:
+            return True
+        if depth > 3:
+            return False
+        return any(from_inspection(v, depth + 1) for x in ast.walk(e) if isinstance(x, ast.Name) for v in assigned_value(src, x.id))
+
+    out.append((from_inspection(left), "missing = required_external - supplied", "the missing-key gate is not (inspection's required keys) minus (supplied keys)", line))
+    # -- supplied side: an untransformed key set
+    def expand(e: ast.AST, depth: int = 0) -> Optional[List[ast.AST]]:
+        """_key_roots, looking through locals that merely name a (possibly transformed) key set."""
+        rs = _key_roots(e)
+        if rs is None or depth > 4:
+            return rs
+        res: List[ast.AST] = []
+        for x in rs:
+            defs = assigned_value(src, x.id) if isinstance(x, ast.Name) else []
+            if isinstance(x, ast.Name) and x.id != CTX and len(defs) == 1 and not mutation_sites(src, {x.id}):
+                sub = expand(defs[0], depth + 1)
+                if sub is None:
+                    return None
+                res.extend(sub)
+            else:
+                res.append(x)
+        return res
+
+    roots = expand(right)
+    out.append((roots is not None, "supplied keys are compared as they are", f"the supplied side `{norm(right)[:90]}`{_defined_as(src, right)} is not the plain key set of the probed context: keys are computed / normalised before the comparison, while the context handed to the pipeline keeps the original keys - a key the nodes will not find counts as supplied and the run starts", line))
+    if roots is None:
+        return out
+    # -- ... of a mapping made of the --context keys and the keys of a planned run
+    mr = find1(src, "_RUNS_, _META_ = expand_run_space(_ANY_, cwd=_ANY_)") or find1(src, "_RUNS_, _META_ = expand_run_space(_ANY_)")
+    RUNS = name_of(mr[1], "_RUNS_") if mr else None
+    run_vars = set()
+    for lp in [n for n in walk_no_nested(src) if isinstance(n, ast.For)]:
+        it = lp.iter.args[0] if isinstance(lp.iter, ast.Call) and call_name(lp.iter) == "enumerate" and lp.iter.args else lp.iter
+        if RUNS and dotted_name(it) == RUNS:
+            tgt = lp.target.elts[-1] if isinstance(lp.target, ast.Tuple) else lp.target
+            if isinstance(tgt, ast.Name):
+                run_vars.add(tgt.id)
+
+    def base_ok(e: ast.AST, depth: int = 0) -> Optional[str]:
+        """None if *e* holds only --context keys / keys of a planned run; else the offending text."""
+        if isinstance(e, ast.Subscript) and RUNS and dotted_name(e.value) == RUNS:
+            return None
+        if isinstance(e, ast.Name):
+            if e.id == CTX or e.id in run_vars:
+                return None
+            if depth > 4:
+                return e.id
+            defs = assigned_value(src, e.id)
+            if not defs:
+                return e.id
+            for d in defs:
+                rs = _key_roots(d)
+                if rs is None:
+                    return norm(d)[:80]
+                for x in rs:
+                    bad = base_ok(x, depth + 1)
+                    if bad:
+                        return bad
+            for site, _r in mutation_sites(src, {e.id}):
+                if isinstance(site, ast.Call) and call_attr(site) == "update" and len(site.args) == 1 and not site.keywords:
+                    rs = _key_roots(site.args[0])
+                    if rs is None:
+                        return norm(site)[:80]
+                    for x in rs:
+                        bad = base_ok(x, depth + 1)
+                        if bad:
+                            return norm(site)[:80]
+                else:
+                    return norm(site)[:80]
+            return None
+        return norm(e)[:80]
+
+    offenders = [b for b in (base_ok(x) for x in roots) if b]
+    has_ctx = any(_mentions(src, x, CTX) for x in roots)
+    out.append((not offenders and has_ctx, "supplied = keys(--context) + keys(planned run)", (f"the probed context receives keys from `{offenders[0]}`, which is neither the --context mapping nor a planned run: the gate can count a key as supplied that no run receives" if offenders else "the supplied side does not contain the --context keys"), line))
+    return out
+
+
+def _mentions(fn: ast.AST, e: ast.AST, name: str, depth: int = 0) -> bool:
+    names = {x.id for x in ast.walk(e) if isinstance(x, ast.Name)}
+    if name in names:
+        return True
+    if depth > 3:
+        return False
+    return any(_mentions(fn, v, name, depth + 1) for nm in names for v in assigned_value(fn, nm))
+
+
+def _defined_as(fn: ast.AST, e: ast.AST) -> str:
+    if isinstance(e, ast.Name):
+        d = assigned_value(fn, e.id)
+        if len(d) == 1:
+            return f" (= `{norm(d[0])[:90]}`)"
+    return ""
+
+
+def _root_name(e: ast.AST) -> Optional[str]:
+    while isinstance(e, (ast.Attribute, ast.Subscript)):
+        e = e.value
+    return e.id if isinstance(e, ast.Name) else None
+
+
+def _closure(repo: Repo, roots) -> Dict[int, Tuple[object, ast.AST, Tuple[str, ...]]]:
+    """Call-graph closure with precise resolution; a call of a *private* method on an object whose
+    class is not known statically (`driver._open_file(...)`) is resolved by name - private method
+    names are specific enough for that, public ones (`process`, `get`, ...) are not."""
+    from ..engine import qualname_of
+
+    seen: Dict[int, Tuple[object, ast.AST, Tuple[str, ...]]] = {}
+    todo = [(m, n, (f"{m.rel}:{qualname_of(n)}",)) for m, n in roots]
+    while todo:
+        m, n, path = todo.pop()
+        if id(n) in seen:
+            continue
+        seen[id(n)] = (m, n, path)
+        repo.consulted.add(m.rel)
+        for call in calls_in(n, include_nested=True):
+            targets = repo.resolve_call(m, call)
+            f = call.func
+            if not targets and isinstance(f, ast.Attribute) and f.attr.startswith("_") and not f.attr.startswith("__"):
+                targets = repo.resolve_call_by_name(call)
+            for tm, tn in targets:
+                if id(tn) not in seen:
+                    todo.append((tm, tn, path + (f"{tm.rel}:{qualname_of(tn)}",)))
+    return seen
+
+
+def _named_test(g: CFG, n, keep_roots: Set[Optional[str]]) -> ast.AST:
+    """The test of branch node *n* with a local that only names a boolean expression computed by the
+    statement right before the branch (`skip = a is None or b is None` / `if skip:`) replaced by it."""
+    import copy
+
+    test = n.part
+    subst: Dict[str, ast.AST] = {}
+    for x in ast.walk(test):
+        if isinstance(x, ast.Name) and x.id not in keep_roots and x.id not in subst:
+            defs = reaching_defs(g, x.id, n.id)
+            if len(defs) == 1 and defs[0].kind == "stmt" and isinstance(defs[0].ast, (ast.Assign, ast.AnnAssign)):
+                d = defs[0]
+                val = d.ast.value
+                tgts = d.ast.targets if isinstance(d.ast, ast.Assign) else [d.ast.target]
+                if len(tgts) == 1 and isinstance(tgts[0], ast.Name) and isinstance(val, (ast.BoolOp, ast.Compare, ast.UnaryOp)) and [t for t, _l in g.succ[d.id] if _l == "n"] == [n.id]:
+                    subst[x.id] = val
+    if not subst:
+        return test
+
+    class T(ast.NodeTransformer):
+        def visit_Name(self, node: ast.Name):
+            return copy.deepcopy(subst[node.id]) if node.id in subst and isinstance(node.ctx, ast.Load) else node
+
+    return ast.fix_missing_locations(T().visit(copy.deepcopy(test)))
+
+
+def _run_normal_form(repo: Repo, fn: ast.AST) -> ast.AST:
+    """`_run` with its private helpers inlined and naming locals substituted (used for def-use questions
+    only; control-flow questions are asked on the function as written)."""
+    from ..normal import nfunc
+
+    try:
+        return nfunc(repo, CLI, "_run", consts=False, copyprop="all")
+    except AnalysisError:
+        return nfunc(repo, CLI, "_run", inline=False, consts=False, copyprop="all")
+
+
+def _missing_role(tree: ast.AST, fn: ast.AST) -> Optional[str]:
+    """The local that holds the missing keys: assigned (in *tree*) from a set difference and tested by an
+    `if <name>:` of `_run` itself."""
+    found = None
+    for cand in [n for n in walk_no_nested(tree) if isinstance(n, ast.Assign) and isinstance(n.targets[0], ast.Name)]:
+        if any(isinstance(c, ast.Call) and call_attr(c) == "difference" for c in ast.walk(cand.value)) or (any(isinstance(b, ast.BinOp) and isinstance(b.op, ast.Sub) for b in ast.walk(cand.value)) and "required" in ast.unparse(cand.value)):
+            if any(isinstance(i, ast.If) and dotted_name(i.test) == cand.targets[0].id for i in walk_no_nested(fn)):
+                found = cand.targets[0].id
+    return found
